@@ -88,6 +88,7 @@ type Obligation struct {
 
 type VC struct {
 	sliceShortened string // position of a s[:k] on a slice (value model of slices has no aliasing)
+	sliceShortenedFn, appendSeenFn *ssa.Function
 	appendSeen     string // position of an append
 	P        *Program
 	S        *SortReg
@@ -171,6 +172,7 @@ type Frame struct {
 	curReach string
 	panicked bool
 	deadEnd  map[*ssa.BasicBlock]bool
+	shortOrig map[*ssa.Slice]Val // value of x in a shortening x[:k] executed in this frame
 }
 
 type loopInfo struct {
